@@ -372,7 +372,14 @@ func relevant(asserts []*Term, goal *Term) []*Term {
 					hit = true
 				}
 			}
-			if hit || nonHub == 0 {
+			if nonHub == 0 {
+				for s := range it.syms {
+					if rel[s] {
+						hit = true
+					}
+				}
+			}
+			if hit {
 				it.in = true
 				changed = true
 				for s := range it.syms {
